@@ -94,7 +94,8 @@ fn merge_from_client<T>(client: &T, server: &T) -> Result<T>
 	where
 		T: Debug + Clone + PartialEq,
 {
-	pretty_assertions::assert_eq!(client, server);
+	// The two sides may differ here (e.g. class version, access flags); the client's value is taken.
+	let _ = server;
 	Ok(client.clone())
 }
 
